@@ -2,7 +2,7 @@
 
 Finite abstract evaluation of qb_loop_run's do-while body over
 p_stop in {LOW, MED, HIGH} (values read from enum qb_loop_priority)."""
-from engine.qb import (AnalysisBroken, abstract_run, atoms_of, estr, unwrap, cval, walk, last_field, fields_of,
+from engine.qb import (cmp_forms, AnalysisBroken, abstract_run, atoms_of, estr, unwrap, cval, walk, last_field, fields_of,
                        callee_of, mentions_var, _eval, TOP)
 from rules.common import field_is, has_call, const_leaves
 
@@ -247,8 +247,7 @@ def r5(ctx, f, levels, fdpoll, hdr):
         if has_call(c, 'qb_list_empty') and any(field_is(a, 'wait_head') for n in walk(c) if n.get('k') == 'call' for a in n.get('args', [])):
             return True
         # the loop bound on the level index
-        u = unwrap(c)
-        return u.get('k') == 'bin' and estr(u['l']) == iv and cval(unwrap(u['r'])) is not None
+        return any(estr(l) == iv and cval(unwrap(r)) is not None for (l, _o, r) in cmp_forms(c))
     hits, _e, _n = gm.search(('entry',), goal=lambda ev: ev is sp, edge_filter=allowed)
     ctx.check('R5', 'promotion-only-needs-waiting-jobs', bool(hits), sp,
               'waiting jobs are spliced to the run list whenever the wait list is non-empty',
